@@ -1473,9 +1473,6 @@ void CDNS::StringItem::reset()
 
 std::size_t CDNS::IndexListItem::write(CdnsEncoder& enc)
 {
-    if (list.size() == 0)
-        return 0;
-
     std::size_t written = 0;
 
     written += enc.write_array_start(list.size());
